@@ -1248,7 +1248,8 @@ def oracle_c10(obs, rep, tier):
                                               "wall_s")} for b in hb],
         "history_bound_completed": max([b["length"] for b in full if b["alphabet"] == OPS], default=0),
         "history_bound_completed_without_wipe": max([b["length"] for b in full], default=0),
-        "programs": [s["id"] for s in o["specs"]] + [X_PROGRAM_ID],
+        "programs": len(o["specs"]) + 1,
+        "program_names": [s["id"] for s in o["specs"]] + [X_PROGRAM_ID],
         "pavexc_runs_total": o["counters"].get("pavexc_runs"), "pavexc_runs_evaluated": n_runs,
         "distinct_cases": len(cases), "seed_sweep_runs": sum(1 for r in o["records"] if r["case"]["kind"] == "sweep"),
         "histories_executed": sum(1 for r in o["records"] if r["case"]["kind"] == "history"),
